@@ -83,6 +83,7 @@ EvEval ==
   /\ LET b == Build(E.src)
          out == EvalCall(b, E.ek, E.mode, St(ctxs[E.slot], <<>>)) IN        \* the call log is recorded per call
      /\ (out.st.unc \/ ResIn(out.pats, E.res, FALSE))        \* error variants by class (DESIGN.md section 4.3)
+     /\ (out.st.unc => PrintT(<<"INCONCLUSIVE", l, "more than one documented outcome">>))
      /\ (b.class = "WF" /\ ~b.open /\ "tree" \in DOMAIN E => SameTree(b.tree, E.tree))
      /\ IF out.det /\ ~out.st.unc
         THEN /\ (E.mode # "fresh" => SameVars(out.st.ctx, E.post))
